@@ -106,7 +106,7 @@ def rand_word(rng, maxlen=40):
 
 
 def cases(tier):
-    return 120000 if tier == "quick" else 2500000
+    return 300000 if tier == "quick" else 3000000
 
 
 def config_text(ci):
@@ -169,7 +169,8 @@ def gen_case(seed, idx, tier):
         extra, prog = "", "prog"
     else:
         tag = "program-name"
-        n = rng.randint(0, 64)
+        # every length 0..64, plus the lengths around NAME_MAX (255) and PATH_MAX (4096) and a few long ones
+        n = rng.randint(0, 64) if rng.random() < 0.7 else rng.choice([100, 200, 254, 255, 256, 257, 300, 511, 512, 1000, 4095, 4096, 4097, 5000, 20000])
         style = rng.choice(["plain", "path", "trailing-slash", "dots", "nonascii", "relative"])
         base = "".join(rng.choice("abcdefXYZ09_-.") for _ in range(n))
         if style == "path":
